@@ -5,6 +5,7 @@ import (
 	"crypto/sha256"
 	"fmt"
 	"go/ast"
+	"go/build"
 	"go/constant"
 	"go/parser"
 	"go/token"
@@ -70,7 +71,7 @@ func declEntries(src []byte, filename string) ([]declEntry, error) {
 	if err != nil {
 		return nil, err
 	}
-	out := []declEntry{{"package", f.Name.Name}}
+	out := []declEntry{{"package", f.Name.Name}, {"build constraints", buildConstraints(src)}}
 	for _, d := range f.Decls {
 		switch x := d.(type) {
 		case *ast.FuncDecl:
@@ -105,6 +106,55 @@ func declEntries(src []byte, filename string) ([]declEntry, error) {
 		return strings.HasPrefix(out[i].name, "import ") && strings.HasPrefix(out[j].name, "import ") && out[i].name < out[j].name
 	})
 	return out, nil
+}
+
+// the //go:build and // +build lines in front of the package clause: comments to the parser, but they decide whether
+// the file is part of the package at all
+func buildConstraints(src []byte) string {
+	var out []string
+	for _, line := range strings.Split(string(src), "\n") {
+		t := strings.TrimSpace(line)
+		if strings.HasPrefix(t, "package ") {
+			break
+		}
+		if strings.HasPrefix(t, "//go:build") || strings.HasPrefix(strings.TrimSpace(strings.TrimPrefix(t, "//")), "+build") && strings.HasPrefix(t, "//") {
+			out = append(out, strings.Join(strings.Fields(t), " "))
+		}
+	}
+	return strings.Join(out, "; ")
+}
+
+// other Go files compiled into the package next to the generated one (default build context, no tests): each
+// declaration they contribute is one the generator did not write
+func companionEntries(dir, output string) []declEntry {
+	var out []declEntry
+	ents, _ := os.ReadDir(dir)
+	bctx := build.Default
+	for _, e := range ents {
+		n := e.Name()
+		if e.IsDir() || !strings.HasSuffix(n, ".go") || strings.HasSuffix(n, "_test.go") || n == output {
+			continue
+		}
+		if ok, err := bctx.MatchFile(dir, n); err != nil || !ok {
+			continue
+		}
+		src, err := os.ReadFile(filepath.Join(dir, n))
+		if err != nil {
+			continue
+		}
+		es, err := declEntries(src, n)
+		if err != nil {
+			out = append(out, declEntry{"file " + n, "does not parse"})
+			continue
+		}
+		for _, d := range es {
+			if d.name == "package" || d.name == "build constraints" && d.canon == "" {
+				continue
+			}
+			out = append(out, declEntry{"file " + n + ": " + d.name, d.canon})
+		}
+	}
+	return out
 }
 
 type shippedPkg struct {
@@ -149,6 +199,8 @@ func collectShipped(repo string) []shippedPkg {
 			p.shippedErr = err.Error()
 		} else if p.shipped, err = declEntries(old, s.Output); err != nil {
 			p.shippedErr = err.Error()
+		} else {
+			p.shipped = append(p.shipped, companionEntries(s.Dir, s.Output)...)
 		}
 		d, err := s.parse()
 		if err != nil {
@@ -231,7 +283,7 @@ func emitShipped(repo, out string) error {
 
 func init() {
 	props["C18"] = func(c *Ctx) {
-		c.Res.Rule = "the finite set is enumerated completely: every directory with a radius-dict-gen go:generate directive (27 rfc*, 4 vendors, internal/saltencrypttest) plus the debug package. For each package the dictionary checked in next to it is parsed with the directive's options (IgnoreIdenticalAttributes, -package, -ref, -ignore), Generate is run, and every top-level declaration of the result is compared by name and by canonical syntax (node kinds, identifiers, operators, literal VALUES; no comments, no layout) with the checked-in generated.go; generated.go files without a directive and directives without output are reported. debug.IncludedDictionary is compared entry by entry with parse+Merge of the seven dictionaries its directive names, read from the copies checked in under rfcNNNN/. non-trivial = declaration compared"
+		c.Res.Rule = "the finite set is enumerated completely: every directory with a radius-dict-gen go:generate directive (27 rfc*, 4 vendors, internal/saltencrypttest) plus the debug package. For each package the dictionary checked in next to it is parsed with the directive's options (IgnoreIdenticalAttributes, -package, -ref, -ignore), Generate is run, and every top-level declaration of the result is compared by name and by canonical syntax (node kinds, identifiers, operators, literal VALUES; no comments, no layout) with the checked-in generated.go, together with its build-constraint lines and every declaration contributed by any other non-test Go file the default build context compiles into the same package (there must be none); generated.go files without a directive and directives without output are reported. debug.IncludedDictionary is compared entry by entry with parse+Merge of the seven dictionaries its directive names, read from the copies checked in under rfcNNNN/. non-trivial = declaration compared"
 		pkgs := collectShipped(c.Repo)
 		c.Res.Exhaustive = true
 		have := map[string]bool{}
